@@ -215,11 +215,13 @@ CLAIMED = {
          "I/O error (parse_error_is_h2_error), with the RFC's code for fixed-length, short-frame, stream-zero and zero-increment "
          "defects and for illegal HEADERS/CONTINUATION interleavings (fixed_length_frames, short_frames, stream_zero_rules, "
          "window_update_nonzero, continuation_discipline); the 9-byte header round-trips for every type/flags/31-bit stream id and "
-         "payload below 2^24 (header_roundtrip) with complete write->read round trips proved for WINDOW_UPDATE and RST_STREAM; the "
-         "reader is a total function. Exact differential on all Write* methods and on the reader over written / raw / mutated / "
+         "payload below 2^24 (header_roundtrip) with complete write->read round trips proved for DATA without and WITH padding "
+         "(data_roundtrip, data_padded_roundtrip), HEADERS without padding/priority incl. the CONTINUATION expectation "
+         "(headers_roundtrip), PRIORITY, RST_STREAM, SETTINGS (any list, order kept), PING, GOAWAY and WINDOW_UPDATE, each for "
+         "every parameter value the writer accepts; the reader is a total function. Exact differential on all Write* methods and on the reader over written / raw / mutated / "
          "truncated bytes under several read limits; ORACLES: read-back of everything the writer accepts, CONTINUATION reassembly"),
-   note=("PARTIAL: per-type write->read round trips beyond WINDOW_UPDATE/RST_STREAM are decided by the read-back oracle. Trusted: Lean "
-         "kernel + standard axioms; harness. Found and fixed D13"),
+   note=("PARTIAL: round trips of HEADERS with padding / priority, PUSH_PROMISE and the CONTINUATION reassembly are decided by the "
+         "read-back oracle, the other frame types by theorem. Trusted: Lean kernel + standard axioms; harness. Found and fixed D13"),
    technique="Lean 4 theorems over a full executable codec model + differential with read-back oracle",
    design='7/C19'),
  'C20': dict(
